@@ -39,7 +39,7 @@ def base_outline(rng, arcs=False):
     """list of absolute commands over M L Q C (A) Z"""
     n = rng.randint(3, 7)
     cx, cy = rng.uniform(-20, 20), rng.uniform(-20, 20)
-    r = rng.uniform(3, 20)
+    r = rng.uniform(3, 20) if rng.random() < 0.8 else rng.uniform(60, 120)
     pts = [(r2(cx + r * rng.uniform(0.5, 1) * math.cos(2 * math.pi * i / n + rng.uniform(-0.3, 0.3))),
             r2(cy + r * rng.uniform(0.5, 1) * math.sin(2 * math.pi * i / n + rng.uniform(-0.3, 0.3)))) for i in range(n)]
     cmds = [("M", [pts[0][0], pts[0][1]])]
@@ -110,7 +110,7 @@ def rtransform(rng):
         a = math.radians(rng.choice([30, 45, 90, 120, 180, -60, rng.uniform(0, 360)]))
         return k, (math.cos(a), math.sin(a), -math.sin(a), math.cos(a), float(rng.randint(-10, 10)), float(rng.randint(-10, 10)))
     if k == "uscale":
-        s = rng.choice([0.5, 2.0, 1.5, 3.0])
+        s = rng.choice([0.5, 2.0, 1.5, 3.0, 1.23456, 0.87654, 2.71828, 1.23456])
         return k, (s, 0.0, 0.0, s, float(rng.randint(-10, 10)), float(rng.randint(-10, 10)))
     if k == "nuscale":
         return k, (rng.choice([0.5, 2.0, 1.5]), 0.0, 0.0, rng.choice([0.75, 3.0, 1.25]), 0.0, 0.0)
